@@ -119,6 +119,20 @@ func checkC01(c *Ctx, w *World) {
 		if a.Field == "gcpBalancer.affinityMap" && a.What == "map-delete" {
 			call := a.Instr.(*ssa.Call)
 			c.check(call.Call.Args[1] == ssa.Value(unbind.Params[1]), "C01.no-move", "unbindSubConn: delete", p.ipos(call), "removes exactly the given key", "unbind removes a different key than the one given")
+			// "after a successful UNBIND the key is routed like an unknown key": the binding is removed whenever it exists,
+			// whichever channel the UNBIND call travelled on (it may have been a fallback channel)
+			ukey := unbind.Params[1]
+			found := func(v ssa.Value) bool {
+				e, ok := stripConv(v).(*ssa.Extract)
+				if !ok || e.Index != 1 {
+					return false
+				}
+				l, ok := e.Tuple.(*ssa.Lookup)
+				return ok && l.CommaOk && isLoadOf(l.X, "gcpBalancer.affinityMap") && l.Index == ssa.Value(ukey)
+			}
+			ucs := newCondSpace(unbind, recOf(boolAtom("bound", found)), "bound")
+			eq, wit := ucs.EquivStrict(ucs.Reach(call), ucs.Atom("bound"))
+			c.check(eq, "C01.unbind", "unbindSubConn: removes every existing binding", p.ipos(call), "the key's binding is deleted ⇔ the key is bound (no other condition)", "a successful UNBIND can leave the key bound: "+wit)
 		}
 	}
 
